@@ -92,8 +92,15 @@ func TestPropStackedDiamonds(t *testing.T) {
 			tip = a + 2
 		}
 		c := Case{DAG: d, Refs: []int{tip}, Wants: []int{tip}, Rounds: [][]int{{}}, DoneAt: 0, Depth: rapid.SampledFrom([]int{0, 2}).Draw(t, "depth")}
-		if rapid.Bool().Draw(t, "haveRoot") {
+		// the client's have: none, the root (below every diamond), or the tip of a diamond part
+		// of the way up (a recognised have sitting above many fork-and-merge levels)
+		switch rapid.IntRange(0, 3).Draw(t, "have") {
+		case 1:
 			c.Rounds = [][]int{{0}}
+		case 2:
+			c.Rounds = [][]int{{3 * rapid.IntRange(1, k).Draw(t, "haveDiamond")}}
+		case 3:
+			c.Rounds = [][]int{{3*rapid.IntRange(1, k).Draw(t, "haveDiamond") - 1}}
 		}
 		sub.Check(t, c)
 	})
